@@ -4,7 +4,7 @@
    packet to all callbacks, unsolicited value changes on the device.  [run c (init c) evs = Some (s, o)] ranges
    over ALL event lists, i.e. all interleavings of any number of user threads with the updater and dispatcher
    threads at the granularity "a thread runs until its next blocking operation", and all reply delays. *)
-From CF Require Import Common.Bytes C04.Model C04.Proofs C04.Proofs_b C04.Proofs_c C04.Proofs_d C04.Proofs_e C04.ExtModel C04.Proofs_x C04.Examples.
+From CF Require Import Common.Bytes C04.Model C04.Proofs C04.Proofs_b C04.Proofs_c C04.Proofs_d C04.Proofs_e C04.ExtModel C04.Proofs_x C04.Proofs_m C04.Examples.
 Open Scope Z_scope.
 
 (* ---------------------------------------------------------------- typed writes *)
@@ -188,3 +188,60 @@ Proof.
   repeat split; try assumption. rewrite H3. right. now left.
 Qed.
 Print Assumptions C04_ext_unrepaired_refuted.
+
+(* ---------------------------------------------------------------- several sessions on one Param object *)
+
+(* Ending a session in ANY state (requests queued, held by the updater, on the wire, closures of unanswered misc requests
+   registered, replies in flight) and connecting to a device with table c leaves NOTHING of the earlier session in the
+   Param / updater / dispatcher state (repaired code, F04f): it is the state of a first connection to c. *)
+Theorem C04_reconnect_fresh : forall c s, reconnect true c s = init c.
+Proof. exact reconnect_fresh. Qed.
+Print Assumptions C04_reconnect_fresh.
+
+(* For every history of sessions (any tables: permuted indices, changed types, removed/added names, RO/RW flips; any
+   events in each; every session may be cut at any point) the last session's final state and observations are those of a
+   run from a first connection to its own table: nothing of an earlier session influences it.  In particular no
+   callback registered in an earlier session is invoked and no reply is decoded with an earlier table. *)
+Theorem C04_sessions_independent : forall hs s0 c evs s os, mrun true s0 (hs ++ [(c, evs)]) = Some (s, os) ->
+  exists os' o, os = os' ++ [o] /\ run c (init c) evs = Some (s, o).
+Proof. exact mrun_last. Qed.
+Print Assumptions C04_sessions_independent.
+
+(* every closure pending in the current session was registered with an element of the current table *)
+Theorem C04_closures_of_current_session : forall hs s0 c evs s os, wf c -> mrun true s0 (hs ++ [(c, evs)]) = Some (s, os) ->
+  Forall (fun k => In (k_elem k) (toc c) /\ misc_cmd (k_cmd k)) (s_clos s).
+Proof. exact mrun_closures. Qed.
+Print Assumptions C04_closures_of_current_session.
+
+(* Before the repair (F04f): a callback registered in session 1 (get_default_value of name 0, never answered) is invoked
+   in session 2 with a value of the device of session 2, under the name of session 1. *)
+Theorem C04_earlier_session_callback_refuted : exists hs s os, mrun false blank hs = Some (s, os) /\
+  misc_calls (concat os) = [(1, 0, MDefault (VInt 9)); (2, 1, MDefault (VInt 9))].
+Proof. destruct ex_f04f as [s [os H]]. exists ex_hist, s, os. exact H. Qed.
+Print Assumptions C04_earlier_session_callback_refuted.
+
+(* What set_value does with a name is a function of the table of the session it is called in: unknown there =>
+   KeyError; read-only there => AttributeError; otherwise the index and the declared type of THAT table. *)
+Theorem C04_set_resolves_in_current_table : forall c s name v, s_updated s = true ->
+  step c s (EvSet name v) =
+  match find_name (toc c) name with
+  | None => Some (s, [ORaise X_KEY])
+  | Some e =>
+    if e_ro e then Some (s, [ORaise X_ATTR])
+    else if negb (kind_ok (e_ty e) v) then None
+    else match pack (e_ty e) v with
+         | None => Some (s, [ORaise X_STRUCT])
+         | Some b => Some (enq s (mkReq (2, id2 (e_id e) ++ b) None), [OEnq (2, id2 (e_id e) ++ b)])
+         end
+  end.
+Proof. exact set_by_name. Qed.
+Print Assumptions C04_set_resolves_in_current_table.
+
+(* get_default_value / persistent_* requests carry the index of the name in the current table and register their
+   closure with the element of the current table *)
+Theorem C04_misc_resolves_in_current_table : forall c s cmd name cb e,
+  find_name (toc c) name = Some e -> misc_ok cmd cb e = true ->
+  step c s (EvMisc cmd name cb) =
+  Some (enq (add_clo s cmd e cb) (mkReq (3, cmd :: id2 (e_id e)) cb), [OEnq (3, cmd :: id2 (e_id e))]).
+Proof. exact misc_by_name. Qed.
+Print Assumptions C04_misc_resolves_in_current_table.
